@@ -22,6 +22,7 @@
 //	outs: "-" or '+' separated <idhex>~<meta>     err: '>' separated layers p<hex> (pkg/errors.Wrap) f<hex> (fmt %w) … b<hex>
 //	pval: s<hex> | e<hex> | n | l<hex> ([]string{…}: a value of a non-comparable type)
 //	err base: b<hex> (errors.New) | u<hex> (an error of a slice type – not comparable, not hashable)
+//	          | d- (context.DeadlineExceeded) | k- (context.Canceled): what a handler honouring msg.Context() reports
 //
 // Observation of a stack case:
 //
@@ -169,7 +170,7 @@ func parseOuts(s string, env *caseEnv) ([]*message.Message, error) {
 func parseErr(s string, env *caseEnv) (error, error) {
 	layers := strings.Split(s, ">")
 	last := layers[len(layers)-1]
-	if len(last) < 2 || (last[0] != 'b' && last[0] != 'u') {
+	if len(last) < 2 || (last[0] != 'b' && last[0] != 'u' && last != "d-" && last != "k-") {
 		return nil, fmt.Errorf("bad err base")
 	}
 	txt, err := unhex(last[1:])
@@ -177,6 +178,12 @@ func parseErr(s string, env *caseEnv) (error, error) {
 		return nil, err
 	}
 	var e error = stderrors.New(txt)
+	switch last {
+	case "d-":
+		e = context.DeadlineExceeded
+	case "k-":
+		e = context.Canceled
+	}
 	if last[0] == 'u' {
 		se := sliceErr{txt}
 		e = se
